@@ -1104,9 +1104,21 @@ func (b *txBuffer) flush(ser old_faithful_grpc.OldFaithful_StreamTransactionsSer
 	}
 	klog.V(2).Infof("Flushing buffer with %d slots containing %d total transactions", len(b.items), totalTxs)
 
-	for b.currentSlot <= b.endSlot {
+	// Visit the buffered slots of [currentSlot, endSlot] in ascending order (not every slot number of the
+	// client-supplied range: that loop does not end for endSlot == MaxUint64 and cannot be cancelled for a huge range).
+	slots := make([]uint64, 0, len(b.items))
+	for slot := range b.items {
+		if slot >= b.currentSlot && slot <= b.endSlot {
+			slots = append(slots, slot)
+		}
+	}
+	sort.Slice(slots, func(i, j int) bool {
+		return slots[i] < slots[j]
+	})
+
+	for _, slot := range slots {
 		// Send all transactions for this slot in index order
-		if txMap, exists := b.items[b.currentSlot]; exists {
+		if txMap, exists := b.items[slot]; exists {
 			// Get all indices and sort them
 			indices := make([]uint64, 0, len(txMap))
 			for idx := range txMap {
@@ -1137,8 +1149,7 @@ func (b *txBuffer) flush(ser old_faithful_grpc.OldFaithful_StreamTransactionsSer
 		}
 
 		// Clean up processed slot
-		delete(b.items, b.currentSlot)
-		b.currentSlot++
+		delete(b.items, slot)
 	}
 	return nil
 }
